@@ -7,7 +7,10 @@ use crate::Result;
 use crate::error::Error;
 use crate::wal::Wal;
 use serde::{Deserialize, Serialize};
+#[cfg(not(nervusdb_verif))]
 use std::fs::File;
+#[cfg(nervusdb_verif)]
+use nervusdb_api::verif::fs::File;
 use std::path::{Path, PathBuf};
 use std::sync::RwLock;
 use std::sync::atomic::{AtomicU64, Ordering};
@@ -146,6 +149,8 @@ impl BackupManager {
     /// - A backup is already in progress
     /// - The database files cannot be read
     pub fn begin_backup(&self) -> Result<BackupHandle> {
+        #[cfg(nervusdb_verif)]
+        use nervusdb_api::verif::std_shim as std;
         // Check if backup already in progress
         if self.active_backup.read().unwrap().is_some() {
             return Err(Error::BackupProtocol(
@@ -369,6 +374,8 @@ impl BackupManager {
         backup_id: Uuid,
         target_db_path: &Path,
     ) -> Result<()> {
+        #[cfg(nervusdb_verif)]
+        use nervusdb_api::verif::std_shim as std;
         let backup_path = backup_dir.join(backup_id.to_string());
         let manifest: BackupManifest =
             Self::read_manifest_from_path(&backup_path.join("backup_manifest.json"))?;
